@@ -51,7 +51,13 @@ func parseRaceLog(path string) []raceBlock {
 		if len(access) < 2 {
 			continue
 		}
-		both := strings.HasPrefix(access[0], modulePath) && strings.HasPrefix(access[1], modulePath)
+		// state that only a library lock protects (the monitor's guardedTouch /
+		// guardedRead helpers) counts as library state: a race there means a
+		// Lock/Once/Limit wrapper failed to exclude
+		inLib := func(fn string) bool {
+			return strings.HasPrefix(fn, modulePath) || strings.Contains(fn, "guardedTouch") || strings.Contains(fn, "guardedRead")
+		}
+		both := inLib(access[0]) && inLib(access[1])
 		pair := []string{shortFn(access[0]), shortFn(access[1])}
 		sort.Strings(pair)
 		sig := pair[0] + "~" + pair[1]
